@@ -25,7 +25,7 @@ var rec = hx.NewRecorder("C20",
 	"a transaction one of whose steps failed under an injected storage fault is discarded, never committed (committing the partial writes of a failed step is the caller's protocol violation)",
 	"a block under /db/blocks that no head reaches (left by a failed step of a transaction the caller commits anyway) is not a committed change",
 	"ACP is off (relationship changes re-announce heads and are not mutations); signing and encryption are off",
-	"GraphQL subscriptions are synchronised with a synthetic update event naming a block that does not exist, which every subscription answers with an error result; it is flagged IsRetry and ignored by the bus oracle",
+	"GraphQL subscriptions are synchronised, whenever no explicit transaction is open, by a real update of a per-subscription sentinel document that satisfies the subscription's filter (found with the reference evaluator, marked mk=true and excluded from the case's filtered mutations), followed by a synthetic update event naming a block that does not exist (flagged IsRetry, ignored by the bus oracle), which a subscription answers with an error result; either marker ends the interval, the sentinel writes themselves are judged like every other change; results of intervals inside an open transaction are judged at the next synchronisation",
 )
 
 // Signatures of the defects the diagnosers know (see diagnose in run_test.go).
@@ -196,11 +196,38 @@ func drawSteps(t *rapid.T, inRequest bool, min, max int) []Op {
 	return out
 }
 
-func drawOp(t *rapid.T, fault bool) Op {
+// drawSameDoc draws 2-3 updates of one document (the shape in which the state at a commit
+// differs from the state at the end of the interval).
+func drawSameDoc(t *rapid.T, col int, inRequest bool) []Op {
+	target := drawTargets(t, 1, 1)
+	n := rapid.IntRange(2, 3).Draw(t, "nsame")
+	out := make([]Op, n)
+	for i := range out {
+		out[i] = Op{Kind: "update", Col: col, Target: target, Set: drawSet(t)}
+		if !inRequest {
+			out[i].API = rapid.IntRange(0, 3).Draw(t, "api") == 0
+		}
+	}
+	return out
+}
+
+func drawOp(t *rapid.T, fault bool, gqlCol int) Op {
 	var op Op
 	switch k := rapid.IntRange(0, 99).Draw(t, "opclass"); {
-	case k < 56:
+	case k < 46:
 		op = drawSimple(t, false)
+	case k < 58:
+		// several commits of one document in one transaction or one request
+		col := gqlCol
+		if rapid.IntRange(0, 4).Draw(t, "otherCol") == 0 {
+			col = 1 - col
+		}
+		if rapid.IntRange(0, 3).Draw(t, "asRequest") == 0 {
+			op = Op{Kind: "multi", Sub: drawSameDoc(t, col, true)}
+		} else {
+			op = Op{Kind: "txn", Sub: drawSameDoc(t, col, false)}
+			op.Commit = rapid.IntRange(0, 9).Draw(t, "commit") < 8
+		}
 	case k < 78:
 		op = Op{Kind: "txn", Sub: drawSteps(t, false, 1, 3)}
 		op.Commit = rapid.IntRange(0, 9).Draw(t, "commit") < 6
@@ -272,7 +299,11 @@ func drawCase(t *rapid.T) Case {
 			c.Ops = append(c.Ops, op)
 			continue
 		}
-		c.Ops = append(c.Ops, drawOp(t, c.Fault))
+		gqlCol := 0
+		if len(c.GQL) > 0 {
+			gqlCol = c.GQL[0].Col
+		}
+		c.Ops = append(c.Ops, drawOp(t, c.Fault, gqlCol))
 	}
 	return c
 }
